@@ -436,7 +436,7 @@ def perturb(r, xs):
 
 def run(ctx):
     quick = ctx.tier == "quick"
-    n_eval = int(os.environ.get("VERIF_C12_N", 0)) or (3000 if quick else 60000)
+    n_eval = int(os.environ.get("VERIF_C12_N", 0)) or (3000 if quick else 40000)
     n_tr = max(60, n_eval // 7)
     ctx.trusted += [
         "hand-written model coq/C12/{Solver,Surfaces,Transforms}.v tied by differential testing (props/C12/run.py, harness/surfaces.cc)",
